@@ -35,6 +35,14 @@ ChkFrom(pool, ids, i) ==
          ELSE ChkFrom(pool, ids, i + 1)
 FromIds(pool, ids) == IF Len(ids) = 0 THEN "NoMemoryRegion" ELSE ChkFrom(pool, ids, 1)
 
+\* every documented refusal that applies to a sequence of regions; the code reports the first one its pairwise scan meets,
+\* another order of the same checks would be as good (the property names the refusals, not their precedence)
+Meet(p, q) == p.s <= LastOf(q) /\ q.s <= LastOf(p)
+FromErrSet(pool, ids) ==
+    IF Len(ids) = 0 THEN {"NoMemoryRegion"}
+    ELSE (IF \E i \in 1 .. Len(ids) - 1 : pool[ids[i]].s > pool[ids[i + 1]].s THEN {"UnsortedMemoryRegions"} ELSE {})
+         \cup (IF \E i, j \in 1 .. Len(ids) : i # j /\ Meet(pool[ids[i]], pool[ids[j]]) THEN {"MemoryRegionOverlap"} ELSE {})
+
 \* the abstract reading: sorted, pairwise disjoint
 SortedDisjoint(pool, ids) == \A i \in 1 .. Len(ids) - 1 : pool[ids[i]].s + pool[ids[i]].n <= pool[ids[i + 1]].s
 ValidMap(pool, ids) == Len(ids) > 0 /\ SortedDisjoint(pool, ids)
@@ -87,6 +95,8 @@ Spec == Init /\ [][Next]_vars
 AllMapsValid == \A m \in 1 .. Len(st.maps) : SortedDisjoint(st.pool, st.maps[m])     \* (removing the only region leaves an empty map)
 \* the transcription of from_arc_regions accepts exactly the valid sequences (checked on every attempt)
 ChecksExact == (last.op = "from_regions") => (last.r.k = "ok" <=> ValidMap(st.pool, last.a.ids))
+\* ... and refuses with one of the refusals that apply
+RefusalApplies == (last.op = "from_regions" /\ last.r.k = "err") => last.r.e \in FromErrSet(st.pool, last.a.ids)
 \* the old map, and every earlier map, keeps describing the same regions
 OldMapsIntact == [][ /\ Len(st'.maps) >= Len(st.maps)
                      /\ \A m \in 1 .. Len(st.maps) : st'.maps[m] = st.maps[m]
